@@ -160,9 +160,9 @@ func genTable(t *rapid.T, bias string) TableSc {
 			// build-up first (responses make good entries), probes interleaved
 			switch {
 			case r < 30:
-				op = TOp{Kind: "P", Peer: peer("op.peer"), Outcome: "answer"}
+				op = TOp{Kind: "P", Peer: peer("op.peer"), Outcome: "answer", AltRep: uniformInt(t, 4, "op.altrep") == 0}
 			case r < 38:
-				op = TOp{Kind: "P", Peer: peer("op.peer"), Outcome: outcome(), Alt: peer("op.alt")}
+				op = TOp{Kind: "P", Peer: peer("op.peer"), Outcome: outcome(), Alt: peer("op.alt"), AltRep: uniformInt(t, 4, "op.altrep") == 0}
 			case r < 50:
 				op = TOp{Kind: "Q", Peer: peer("op.peer"), Method: "ping", IDKind: "own"}
 			case r < 56:
@@ -180,9 +180,9 @@ func genTable(t *rapid.T, bias string) TableSc {
 				op = TOp{Kind: "Q", Peer: peer("op.peer"), Method: rapid.SampledFrom([]string{"ping", "find_node", "get_peers", "announce_peer", "nonsense"}).Draw(t, "op.method"),
 					RO: rapid.IntRange(0, 5).Draw(t, "op.ro") == 0, IDKind: rapid.SampledFrom([]string{"own", "own", "own", "own", "own", "own", "zero", "root"}).Draw(t, "op.idkind")}
 			case r < 52:
-				op = TOp{Kind: "P", Peer: peer("op.peer"), Outcome: outcome(), Alt: peer("op.alt")}
+				op = TOp{Kind: "P", Peer: peer("op.peer"), Outcome: outcome(), Alt: peer("op.alt"), AltRep: uniformInt(t, 4, "op.altrep") == 0}
 			case r < 58:
-				op = TOp{Kind: "H", Peer: peer("op.peer"), Outcome: outcome(), Alt: peer("op.alt")}
+				op = TOp{Kind: "H", Peer: peer("op.peer"), Outcome: outcome(), Alt: peer("op.alt"), AltRep: uniformInt(t, 4, "op.altrep") == 0}
 			case r < 62:
 				op = TOp{Kind: "U", Peer: peer("op.peer")}
 			case r < 70:
@@ -1077,13 +1077,24 @@ func runTable(sc TableSc, c *kit.Case, clause string) *kit.Violation {
 		case "P", "H":
 			p := sc.Peers[op.Peer]
 			m.script[p.UDP().String()] = op
+			dest := p.UDP()
+			if op.AltRep {
+				// the caller names the same IPv4 address in the other byte form
+				if v4 := dest.IP.To4(); v4 != nil {
+					if len(dest.IP) == 4 {
+						dest.IP = v4.To16()
+					} else {
+						dest.IP = v4
+					}
+				}
+			}
 			done := make(chan struct{})
 			go func() {
 				defer close(done)
 				if op.Kind == "P" {
-					m.sv.S.Ping(p.UDP())
+					m.sv.S.Ping(dest)
 				} else {
-					m.sv.S.FindNode(dht.NewAddr(p.UDP()), int160.FromByteArray(m.peerID(op.Alt)), dht.QueryRateLimiting{})
+					m.sv.S.FindNode(dht.NewAddr(dest), int160.FromByteArray(m.peerID(op.Alt)), dht.QueryRateLimiting{})
 				}
 			}()
 			if !m.await(done, what) {
